@@ -123,7 +123,7 @@ func c10Dispatch(nmsg int, freeCut bool) {
 		cut = sym.Concrete(sym.Int("cut", 0, len(wire)))
 	} else {
 		// a few representative fragmentations (C01 covers all fragmentations of the reader itself)
-		cut = []int{0, 5, 28, 30}[sym.Choose("cut", 4)]
+		cut = []int{0, 30}[sym.Choose("cut", 2)]
 	}
 	if cut > 0 {
 		s.in <- wire[:cut]
@@ -131,9 +131,16 @@ func c10Dispatch(nmsg int, freeCut bool) {
 	if cut < len(wire) {
 		s.in <- wire[cut:]
 	}
-	sym.Quiesce()
-	e.Close()
-	sym.Quiesce()
+	if sym.Bool("peer-hangs-up-right-after-the-burst") {
+		// the end of the connection is already waiting behind the data: everything received before it
+		// still reaches the handlers
+		s.peerClose()
+		sym.Quiesce()
+	} else {
+		sym.Quiesce()
+		e.Close()
+		sym.Quiesce()
+	}
 	i0, i1 := 0, 0
 	var got0, got1 []*Message
 	for m := range q0 {
